@@ -91,6 +91,11 @@ def main():
             if steps >= 4:
                 # windows reaching the table end maximise int(e0*1000) and ke2f (spthe1/spthe2 indexing)
                 lines.append(genmon.dbd_line(table, iso, level, mode, (rng.randint(0, steps // 2) / 64.0, (steps + 8) / 64.0)))
+            if rng.uniform() < 0.5:
+                # requests that must be refused are executions too: windows above the kinematic range, beyond the 4.3 MeV of the tables,
+                # inverted, one-sided above the range (the refusal must come before anything is indexed or sampled with them)
+                for w in ((5.0, 6.0), (9.0, 10.0), (1.0e3, 1.0e4), (3.0, 1.0), (4.5, None), (None, -1.0)):
+                    lines.append(genmon.dbd_line(table, iso, level, mode, w))
     exe, recs, fails = genmon.run_specs("asan", lines, chk.seed, 150 if quick else 3000, 3 if quick else 12, True, extra_env=env, deep_events=10000 if quick else 1000000)
     for shard, rc, err in fails:
         report(chk, "gen_monitor", rc, err, "shard %d" % shard)
